@@ -18,7 +18,7 @@ REPLAY_PY = os.environ.get("SYMX_REPLAY_PYTHON", "/venv/bin/python")
 
 TIERS = {
     "quick": dict(branch_timeout_ms=5000, claim_timeout_ms=10000, harness_budget_s=150, witness_per_harness=2, dual_paths=8),
-    "thorough": dict(branch_timeout_ms=10000, claim_timeout_ms=120000, harness_budget_s=1500, witness_per_harness=6, dual_paths=40),
+    "thorough": dict(branch_timeout_ms=10000, claim_timeout_ms=120000, harness_budget_s=600, witness_per_harness=6, dual_paths=40),
 }
 
 EXIT_OK, EXIT_VIOLATION, EXIT_HARNESS = 0, 1, 3
